@@ -113,6 +113,9 @@ impl Property for C10 {
             let d = rng.usize(0, 2);
             sc.cmds.insert(0, crate::reflang::Cmd::new(5, 1, d, crate::reflang::RArea::Nil));
         }
+        if rng.chance(5) {
+            sc.cmds = gen::goto_machine(rng, false);
+        }
         sc.stdin = SENTINEL.as_bytes().to_vec();
         sc.plan = gen::gen_plan(rng, true);
         sc.cap_bits = 128;
